@@ -255,8 +255,9 @@ func (s *vSession) opEnd() {
 		vAssert(e1 == nil && e2 == nil, "Gen.stream.succeeds-while-open")
 		s.exp = append(s.exp, vSessOut{kind: 'm', typ: MessageText, payload: append(s.openSoFar, b...)})
 	} else {
-		vAssert(e1 != nil || e2 != nil, "Gen.after.writer-fails")
-		s.unfinished = true
+		// the connection is over: the rest of the message cannot be sent any more. (Judged on the wire: if the calls report
+		// success nevertheless, the frames they wrote show up behind the Close frame or not at all.)
+		s.unfinished = e1 != nil || e2 != nil
 	}
 	s.open = nil
 }
